@@ -24,8 +24,12 @@ package recover
 //@       before Hash.Generate(?pw) -> (?h, ?he) :: he == nil && Password(s) == h &&
 //@       before Body.Read(PageRecoverEnd) -> (?vals, _) :: pw == val(vals, "GetPassword")
 //@   ensures[C06] only_own_record: each Store.Save(?s) -> _ => PID(s) == old(PID(s)) && Email(s) == old(Email(s))
+//@   -- C06: a recovery is only reported successful (redirect, or login) after the recover-end
+//@   -- event, which carries the revocation of remember tokens, ran without error
 //@   ensures[C06] event_fired: each Redirect(_) =>
-//@       before Fire("After", EventRecoverEnd, ?cu, _, _) :: before Store.Save(?s) -> ?e :: e == nil && cu == s
+//@       before Fire("After", EventRecoverEnd, ?cu, _, _) -> (_, ?fe) :: fe == nil && before Store.Save(?s) -> ?e :: e == nil && cu == s
+//@   ensures[C06] event_error_outcome: each Fire("After", EventRecoverEnd, _, _, _) -> (_, ?fe) => fe != nil ==>
+//@       (result == fe && !emits Redirect(_) && !emits Sess.Put(_, _))
 //@   ensures[C05] reject_changes_nothing: (each Sess.Put(_, _) => before Store.Save(_) -> ?e :: e == nil) && !emits Sess.Del(_) && !emits Cook.Put(_, _)
 //@   -- C01: logging in after recovery needs the configuration flag and the saved change
 //@   ensures[C01] session_guard: each Sess.Put(?k, ?v) => k == "uid" && r.Config.Modules.RecoverLoginAfterRecovery &&
